@@ -1,6 +1,6 @@
 from __future__ import annotations
 
-from enum import IntFlag
+from enum import Enum, IntFlag
 
 from dissect.cstruct.types.base import BaseType
 from dissect.cstruct.types.enum import PY_311, EnumMetaType
@@ -56,7 +56,7 @@ class Flag(BaseType, IntFlag, metaclass=EnumMetaType):
             return result
 
     def __eq__(self, other: int | Flag) -> bool:
-        if isinstance(other, Flag) and other.__class__ is not self.__class__:
+        if isinstance(other, Enum) and other.__class__ is not self.__class__:
             return False
 
         # Python <= 3.10 compatibility
